@@ -1,0 +1,9 @@
+//go:build verif
+
+package climit
+
+// VerifFree returns the number of free tokens (verification harness only).
+func (cl *ConcurrencyLimit) VerifFree() int { return len(cl.ch) }
+
+// VerifLimit returns the configured limit (verification harness only).
+func (cl *ConcurrencyLimit) VerifLimit() int { return cap(cl.ch) }
